@@ -3,6 +3,7 @@ import itertools
 from common import Search, expect
 import metrics_common as mc
 import metric_zoo as mz
+from metric_zoo import replay_result_after_update   # pylint: disable=unused-import
 
 
 def _state(entry, blocks):
@@ -130,8 +131,10 @@ def bounded_algebra(p):
         return S.result()
       r1, r2 = entry.view(sa), entry.view(sa)
       entry.feed(sa, entry.rows[:1])
-      ref = mz.snapshot(sa2); entry.feed(ref, entry.rows[:1])
+      # the reference is rebuilt from scratch and never read before: a copy of a state whose result was already read
+      # would inherit whatever reading left behind (e.g. memoised values)
+      ref = mk(a); entry.merge(ref, mk(b)); entry.feed(ref, entry.rows[:2]); entry.feed(ref, entry.rows[:1])
       ok3 = (r1 == r2) if entry.random else (_eq(entry, r1, r2) and _eq(entry, entry.view(sa), entry.view(ref)))
-      if not S.check(ok3, dict(metric=entry.name, law='repeatable result', states=[a, b]), f'{entry.name}: result() twice gave {r1} / {r2}', cls=entry.name + ':result'):
+      if not S.check(ok3, dict(metric=entry.name, law='repeatable result', states=[a, b]), f'{entry.name}: result() twice gave {r1} / {r2}; after one more add() the state that had been read reports {entry.view(sa)}, a never-read state with the same history {entry.view(ref)}', cls=entry.name + ':result'):
         return S.result()
   return S.result()
